@@ -6,7 +6,7 @@ declare -A PROPS=( [R1]="C08 C07 C19 C15" [R2]="C20 C07 C19 C15" [R3]="C17 C07 C
 : > /tmp/mx_r.cmds
 for R in R1 R2 R3 R4 R5 R6; do for k in 1 2 3 4; do [ -f /tmp/refactor/$R/$k.diff ] && echo "/tmp/refactor/$R/$k.diff $R-$k ${PROPS[$R]}" >> /tmp/mx_r.cmds; done; done
 : > /tmp/mx_s.cmds
-for d in seeded/C*-[A-Z]; do n=$(basename $d); p=${n%%-*}; if [ "$p" != "C07" ]; then echo "$d/patch.diff $n $p C07"; else echo "$d/patch.diff $n $p"; fi >> /tmp/mx_s.cmds; done
+for d in seeded/C*-[A-Z]; do n=$(basename $d); p=${n%%-*}; extra="C12"; case $p in C03|C12|C14) extra="C12 C03";; esac; [ "$p" = "C12" ] && extra="C03"; if [ "$p" != "C07" ]; then echo "$d/patch.diff $n $p C07 $extra"; else echo "$d/patch.diff $n $p $extra"; fi >> /tmp/mx_s.cmds; done
 if [ "$1" != "seeded" ]; then cat /tmp/mx_r.cmds | MAXL=3 CUT=300 xargs -P ${JOBS:-5} -L 1 tools/try_patch.sh > /tmp/matrix_refactor.txt 2>&1; fi
 if [ "$1" != "refactor" ]; then cat /tmp/mx_s.cmds | MAXL=2 CUT=300 xargs -P ${JOBS:-5} -L 1 tools/try_patch.sh > /tmp/matrix_seeded.txt 2>&1; fi
 echo "refactor alarms:"; grep -c "exit=[12]" /tmp/matrix_refactor.txt; echo "seeded:"; grep "exit=" /tmp/matrix_seeded.txt | awk '{print $1, $2, $3}' | sort | tr '\n' ';'
